@@ -1377,7 +1377,7 @@ assignexpr(struct scope *s)
 		l = bit;
 	}
 	r = mkbinaryexpr(&tok.loc, op, l, r);
-	e->next = mkassignexpr(l, r);
+	e->next = mkassignexpr(l, exprassign(r, l->type));
 	return mkexpr(EXPRCOMMA, l->type, e);
 }
 
